@@ -283,8 +283,10 @@ PROPS["C20"] = {
 
 PROPS["C18"] = {
     "components": [CircuitSeq("C18", None, 150, 4000, suite="gowrap")],
+    "generated": ["chanfacts"],   # gowrapper.go's concurrency structure as a ChanLang term, checked in Props/C18Prog.lean
     "rule": "gowrap (K4): Circuit.Go scenarios = outcome (nil / error / panic incl. error-valued and typed-nil panic values) x context end (never / before the call / while the function is parked / after it finished / simultaneously) x cancel vs execution timeout x GoLostErrors on/off x run function vs fallback x nil vs real circuit x function finishing or never returning; real goroutines under the real Go scheduler, order forced by channels; "
-            "observed: Go's result or re-panicked value (identity), GoLostErrors reports, promptness (2 s bound while the function is parked), helper goroutines (stack dump) after the function returned; each observation must be a final state the Lean model allows; non-trivial = the context ends before/while/racing the function; distinct by FNV hash",
+            "observed: Go's result or re-panicked value (identity), GoLostErrors reports, promptness (2 s bound while the function is parked), helper goroutines (stack dump) after the function returned; each observation must be a final state the Lean model allows; non-trivial = the context ends before/while/racing the function; distinct by FNV hash. "
+            "STRUCTURAL TIE BY REGENERATION (K3): tools/extract/chanfacts prints gowrapper.go's concurrency structure (channels with capacities, goroutines, deferred recover-send, selects with their cases, closes, guards) as a ChanLang term on every run; Props/C18Prog proves by kernel evaluation that it IS the program the small-step model was written for, that every channel a goroutine sends into is buffered, that the panic send sits in a deferred recover, that the waiter is started under the GoLostErrors guard only",
     "trusted_base": TB_COMMON + ["modelled not verified: Go channel/select/goroutine semantics (capacity-1 buffers as Option, select = any ready branch)", "outcome-level tie under the real scheduler: the harness forces orders with channels and real timers of a few ms"],
     "assumptions": ["partial: the model's interleavings are not driven step by step on the real code (no scheduler control over goroutines the library spawns)"],
 }
